@@ -86,7 +86,9 @@ where
   type Unsub = Subject::Unsub;
 
   fn actual_subscribe(self, mut observer: O) -> Self::Unsub {
-    observer.next(self.value.rc_deref().clone());
+    // release the value cell before calling out: the callback may peek()
+    let value = self.value.rc_deref().clone();
+    observer.next(value);
     self.subject.actual_subscribe(observer)
   }
 }
